@@ -119,6 +119,23 @@ pub fn run(tier: Tier) -> ! {
             chk.sample(json!({"labels": "WUNW", "shape": 1, "n_tags": 2, "expected_tokens": format!("{:?}", ref_tokens(&[1, 2, 0, 1]))}));
         }
     }
+    // long sentences (40 and 120 characters): periodic label patterns of every period-3 and period-4 word
+    for n in [40usize, 120] {
+        for period in [3usize, 4] {
+            for pat in gen::vectors(3, period) {
+                let labels: Vec<u8> = (0..n - 1).map(|i| pat[i % period]).collect();
+                for shape in 0..2 {
+                    for n_tags in [0usize, 2] {
+                        chk.eval(1);
+                        chk.nontrivial(1);
+                        if let Some((k, what)) = check_case(shape, &labels, n_tags) {
+                            chk.violation(format!("{k} labels={} shape={shape} n_tags={n_tags}", lab(&labels)), what, json!({"shape": shape, "labels": lab(&labels), "n_tags": n_tags}));
+                        }
+                    }
+                }
+            }
+        }
+    }
     chk.sample(json!({"labels": "UWUWN", "shape": 0, "n_tags": 0, "expected_tokens": format!("{:?}", ref_tokens(&[2, 1, 2, 1, 0]))}));
     chk.set("max_chars", json!(max_n));
     chk.set("label_alphabet", json!("N (not a boundary), W (word boundary), U (unknown)"));
